@@ -226,6 +226,19 @@ impl Prop for C06 {
             );
         }
     }
+    fn replay_detail(&self, d: &serde_json::Value) -> Option<Result<String, String>> {
+        // a recorded schedule on a named program is replayed directly, without the search
+        let schedule = d.get("schedule")?.as_str()?;
+        let text = d.get("program")?.as_str()?;
+        sched::parse_hist(schedule)?;
+        let all: Vec<(String, String, Vec<Input>)> = programs()
+            .into_iter()
+            .map(|(n, b, i, _)| (n.to_string(), full_text(b), i))
+            .chain(Self::generated(Tier::Thorough))
+            .collect();
+        let (name, _, inputs) = all.into_iter().find(|(_, t, _)| t == text)?;
+        Some(sched::replay_schedule(&name, text, inputs, schedule))
+    }
     fn rule(&self, tier: Tier) -> String {
         format!(
             "for each of the {} P-gc programs: breadth-first search of ALL interleavings of mutator instructions (M) with collector micro-steps \
